@@ -153,6 +153,20 @@ func judgeC17(rep *core.Report, c *CaseResult) {
 				return strings.Join(kept, "\n")
 			}
 			if strip(od.Text) == strip(d.Text) {
+				// same lines; a blank line in front of the method where the removed notation line stood means the
+				// remaining doc lines are no longer attached to the method (KF-C17-embedded-method-doc-detached)
+				detached := false
+				ol := strings.Split(od.Text, "\n")
+				for i := 1; i+1 < len(ol); i++ {
+					if strings.TrimSpace(ol[i]) == "" && strings.HasPrefix(strings.TrimSpace(ol[i-1]), "//") && !strings.HasPrefix(strings.TrimSpace(ol[i+1]), "//") && strings.TrimSpace(ol[i+1]) != "" {
+						detached = true
+					}
+				}
+				if detached {
+					rep.Violate(&core.Violation{Property: "C17", Monitor: "selection", Symptom: "embedded-method-doc-detached", Features: map[string]string{"doc_followed_by_notation": "true"}, Case: s.ID,
+						Detail: fmt.Sprintf("interface %s (embedded by a converter interface): after removal of the notation line that ended a method comment the rest of that comment is no longer attached to the method:\n--- input:\n%s\n--- output:\n%s", name, d.Text, od.Text), Files: c.ReplayFiles()})
+					continue
+				}
 				rep.Count("unmarked_interfaces_intact", 1)
 				rep.Count("embedded_plain_interface_compared_modulo_notation_lines", 1)
 				continue
@@ -233,7 +247,18 @@ func RunC17(e *core.Env) int {
 		s.Ifaces = []*scen.Iface{{Name: "Convergen", Converter: true, Methods: []*scen.Method{{Name: "Conv", Src: scen.Param{Type: "*A"}, Dst: scen.Param{Type: "*B"}}}},
 			{Name: "Other", Converter: false, Methods: []*scen.Method{{Name: "Do", Src: scen.Param{Type: "int"}, Dst: scen.Param{Type: "string"}}}}}
 		s.Feature("layout.vector", "corpus")
-		if cb, err := NewBatch(e, "corpus", []*scen.Scenario{s}); err == nil {
+		// witness of KF-C17-embedded-method-doc-detached: an ordinary interface embedded by the converter interface
+		// whose method comment ENDS with a notation line
+		setup2 := "//go:build convergen\n\npackage sc\n\ntype A struct{ X int }\n\ntype B struct{ X int }\n\ntype Base1 interface {\n\t// c001 doc of Via\n\t// :typecast\n\tVia(*A) *B\n}\n\ntype Convergen interface {\n\tBase1\n\tConv(*A) *B\n}\n"
+		s2 := &scen.Scenario{ID: "kw-c17-embedded-doc", PkgRel: "kwc17b", PkgName: "sc", InConv: true, Files: map[string]string{}}
+		s2.Setup = s2.PkgRel + "/setup.go"
+		s2.Files[s2.Setup] = setup2
+		s2.Files[s2.PkgRel+"/types.go"] = "package sc\n"
+		via1 := &scen.Method{Name: "Via", Src: scen.Param{Type: "*A"}, Dst: scen.Param{Type: "*B"}, Notations: []scen.Notation{scen.N("typecast")}, DocLines: []string{"// c001 doc of Via"}}
+		s2.Ifaces = []*scen.Iface{{Name: "Base1", Converter: false, Methods: []*scen.Method{via1}},
+			{Name: "Convergen", Converter: true, Methods: []*scen.Method{via1, {Name: "Conv", Src: scen.Param{Type: "*A"}, Dst: scen.Param{Type: "*B"}}}}}
+		s2.Feature("layout.vector", "corpus,embeds-plain-notated,embeds-plain")
+		if cb, err := NewBatch(e, "corpus", []*scen.Scenario{s, s2}); err == nil {
 			cb.RunTool(e, true)
 			for _, c := range cb.Cases {
 				judgeC17(rep, c)
